@@ -142,6 +142,22 @@ func (p *pipe) Read(ctx context.Context) (*goat.Rpc, error) {
 	}
 }
 
+// deliverable counts the queued envelopes a reader could take right now.
+func (p *pipe) deliverable() int {
+	p.mu.Lock()
+	defer p.mu.Unlock()
+	if p.rerr != nil {
+		return 0
+	}
+	if p.auto {
+		return len(p.q)
+	}
+	if p.credits < len(p.q) {
+		return p.credits
+	}
+	return len(p.q)
+}
+
 func (p *pipe) pending() int {
 	p.mu.Lock()
 	defer p.mu.Unlock()
